@@ -10,10 +10,14 @@ LEAN_TARGETS = ['NdnProofs.Props.C16', 'NdnGen.C16']
 THEOREMS = [
     'Ndn.C16.cert_wire', 'Ndn.C16.cert_name', 'Ndn.C16.cert_signed_portion', 'Ndn.C16.parse_cert_roundtrip',
     'Ndn.C16.formatTime_length', 'Ndn.C16.formatTime_inj', 'Ndn.Gen.C16.schema_matches',
+    'Ndn.C16.ord_ymd_roundtrip', 'Ndn.C16.addSeconds_spec', 'Ndn.C16.addYears_spec', 'Ndn.C16.toUtc_spec',
+    'Ndn.C16.fmtInstant_inj', 'Ndn.C16.fmt_domain', 'Ndn.C16.derive_instants',
+    'Ndn.C16.validity_encodes_requested_instants', 'Ndn.C16.req_instants', 'Ndn.C16.self_instants',
+    'Ndn.C16.issued_validity',
 ]
 PARTIAL = {}
 TRUSTED = [
-    'C16: datetime arithmetic (now + 20 years, start + expire_sec) and strftime are CPython; the model starts from the calendar fields of the two instants; years outside 1000..9999 are outside the model',
+    'C16: the calendar is modelled (NdnModel/Calendar.lean transcribes CPython\'s _ymd2ord/_ord2ymd, datetime + timedelta(seconds=n), replace(year=...), astimezone(UTC) for a fixed offset in whole minutes) and tied to CPython\'s datetime by the calendar stream of this run; an instant enters the model as (date.toordinal(), second of day, microsecond); expire_sec is an integer; strftime(\'%Y%m%dT%H%M%S\') is modelled as zero-padded decimal fields, which is what glibc prints for the years 1000..9999 only (validity periods reaching below 1000-01-01 = ordinal 364878 are answered `skip` by the model and not compared); zones with a variable offset (DST) are outside the model',
     'C16: the signer is abstract as in C01 (its output is recorded); verification uses the real pycryptodomex verifiers in the oracle',
 ]
 RULE = ('certificates produced by self_sign, sign_req and derive_cert for random key names (given as component list, URI '
@@ -23,7 +27,15 @@ RULE = ('certificates produced by self_sign, sign_req and derive_cert for random
         'ends, microseconds, UTC-aware starts, a machine zone other than UTC, total certificate size swept across 253 and '
         '65536 for every signer, EC P-256/384/521, RSA-2048 and Ed25519 subject keys and issuer signers (plus HMAC and a synthetic signer '
         'sweeping reserved/real signature lengths across 253), validity start times at year / month / leap-day boundaries '
-        'and durations up to 10^9 s, with the clock patched. Compared with the model: wire bytes, signed bytes, certificate '
+        'and durations up to 10^9 s, with the clock patched; the model is handed the instants as (ordinal, second, microsecond, '
+        'offset minutes) + expire_sec and computes the calendar fields of the validity period itself, and the calendar '
+        'errors (OverflowError past 9999-12-31, ValueError for 29 Feb + 20 years into a common year) are compared too. '
+        'Calendar stream: ymd2ord / ord2ymd / datetime + timedelta(seconds=n) / astimezone(UTC) / replace(year+k) / '
+        'strftime of the Lean model against CPython\'s datetime in both directions (from fields and from ordinals) on '
+        'random instants, the 400/100/4/1-year cycle boundaries, first/last days of years, month ends, leap days, century '
+        'years, invalid dates, sums landing on and beyond 0001-01-01 and 9999-12-31, |n| up to 10^15; date.fromordinal of every '
+        'ordinal 1..3652059 in the thorough tier (six random blocks of 40000 days in the quick tier). '
+        'Compared with the model: wire bytes, signed bytes, certificate '
         'name, every parsed field. Oracle: well-formed Data, name = key-name/issuer/version, Content = key, ContentType KEY, '
         'ValidityPeriod = the requested instants, key locator = the signer\'s, signature verifies under the issuing key, '
         'parse_certificate and parse_data agree. non-trivial = certificate built and verified; distinct = distinct inputs')
@@ -31,10 +43,15 @@ LEVEL_TEXT = ('Lean 4 theorems about the model of new_cert (manual outer-TLV ass
               'cut): the certificate is exactly tlv DATA (Name, MetaInfo(KEY), Content=key, SignatureInfo+ValidityPeriod, '
               'tlv SIGNATURE_VALUE sig) for every signature length; its name is key-name/issuer/version; the signed bytes are '
               'Name..SignatureInfo; decoding returns the same fields; the 15-character validity encoding is injective on '
-              'calendar fields. Tied to security_v2.py by differential execution with real keys and a patched clock; the '
+              'calendar fields. The calendar is part of the model: CPython\'s ordinal <-> (year, month, day) conversions are '
+              'inverse bijections (all ordinals, all valid dates), datetime + timedelta(seconds=n) is exactly ordinal*86400+second '
+              'arithmetic with OverflowError outside the years 1..9999, replace(year+20) fails exactly on 29 February into a '
+              'common year or past 9999, astimezone(UTC) preserves the moment; hence derive_cert writes the texts of the UTC '
+              'instants t and t+expire_sec, sign_req of now and now+10 d, self_sign of 19700101T000000 and now with year+20, '
+              'and the validity period determines those instants to the second. Tied to security_v2.py by differential execution with real keys and a patched clock; the '
               'oracle verifies every certificate with the issuer\'s public key.')
-LEVEL_NOTE = 'Model = code sampled; datetime arithmetic and cryptography are not modelled (oracle side only).'
-TECHNIQUE = 'Lean 4 proof (byte-level assembly + generic codec round trip) + model/implementation correspondence with real keys'
+LEVEL_NOTE = 'Model = code sampled; the calendar is modelled and compared with CPython datetime; cryptography is not modelled (oracle side only).'
+TECHNIQUE = 'Lean 4 proof (byte-level assembly + generic codec round trip + proleptic Gregorian calendar arithmetic) + model/implementation correspondence with real keys and with CPython datetime'
 DESIGN_REF = 'DESIGN.md section 7, C16'
 
 ISSUERS = [['ec256'], ['ec256'], ['ec384'], ['ec521'], ['rsa2048'], ['ed25519'], ['hmac'], ['digest', 0]]
@@ -201,15 +218,134 @@ def _random_case(rng, tier):
     return case
 
 
+MAXORD = 3652059
+CYCLES = [365, 366, 1461, 36524, 36525, 146097]
+
+
+def _cal_ordinal(rng):
+    r = rng.random()
+    if r < 0.15:
+        return rng.choice([1, 2, 3, 59, 60, 61, 365, 366, 367, 730, 731, 1095, 1096, 1460, 1461, 1462, MAXORD - 366,
+                           MAXORD - 365, MAXORD - 1, MAXORD, 364877, 364878, 364879, 719162, 719163])
+    if r < 0.45:
+        # around a multiple of one of the cycle lengths (also nested: 400-year block + 100-year block + ...)
+        n = rng.randint(0, 24) * 146097 + rng.choice([0, 0, 1, 2, 3, 4]) * 36524 + rng.choice([0, 0, 1, 24, 25]) * 1461 \
+            + rng.choice([0, 0, 1, 2, 3, 4]) * 365 + rng.randint(-2, 3)
+        return min(max(n, 1), MAXORD)
+    if r < 0.65:
+        # first / last days of a year, of February, of a month
+        y = rng.choice([rng.randint(1, 9999), rng.choice([1, 4, 100, 400, 1000, 1900, 2000, 2100, 2400, 9996, 9999])])
+        mo, d = rng.choice([(1, 1), (1, 2), (12, 31), (12, 30), (2, 28), (3, 1), (2, _mdays(y, 2)),
+                            (rng.randint(1, 12), 1)])
+        return _dt.date(y, mo, d).toordinal()
+    return rng.randint(1, MAXORD)
+
+
+def _cal_inst(rng):
+    o = _cal_ordinal(rng)
+    sec = rng.choice([0, 0, 1, 59, 60, 3599, 3600, 43200, 86399, 86399, 86340, rng.randrange(86400), rng.randrange(86400)])
+    us = rng.choice([0, 0, 1, 999999, rng.randrange(1000000)])
+    if rng.random() < 0.5:
+        return ['o', o, sec, us]
+    d = _dt.date.fromordinal(o)
+    return ['f', d.year, d.month, d.day, sec // 3600, sec % 3600 // 60, sec % 60, us]
+
+
+def _cal_abs(inst):
+    if inst[0] == 'o':
+        return inst[1] * 86400 + inst[2]
+    return _dt.date(*inst[1:4]).toordinal() * 86400 + inst[4] * 3600 + inst[5] * 60 + inst[6]
+
+
+def _cal_case(rng):
+    r = rng.random()
+    if r < 0.15:
+        if rng.random() < 0.7:
+            d = _dt.date.fromordinal(_cal_ordinal(rng))
+            ymd = [d.year, d.month, d.day]
+            if rng.random() < 0.3:
+                ymd[2] = _mdays(ymd[0], ymd[1]) + rng.choice([0, 1])         # the last day of the month, and one past it
+        else:
+            ymd = [rng.choice([0, 1, 1900, 2000, 2023, 2024, 2100, 9999, 10000, rng.randint(1, 9999)]),
+                   rng.choice([0, 1, 2, 2, 12, 13, rng.randint(1, 12)]), rng.choice([0, 1, 28, 29, 30, 31, 32])]
+        return {'fn': 'cal', 'op': 'ymd2ord', 'ymd': ymd}
+    if r < 0.30:
+        n = _cal_ordinal(rng) if rng.random() < 0.9 else rng.choice([0, MAXORD + 1, MAXORD + 366, 4000000, 2 ** 31 - 1])
+        return {'fn': 'cal', 'op': 'ord2ymd', 'n': n}
+    inst = _cal_inst(rng)
+    if r < 0.65:
+        a = _cal_abs(inst)
+        k = rng.random()
+        if k < 0.2:
+            n = rng.choice([0, 1, -1, 59, 60, 86399, 86400, 86401, -86399, -86400, -86401, 864000, 10 ** 9, -10 ** 9])
+        elif k < 0.35:
+            n = 86400 * rng.randint(-800000, 800000) + rng.choice([-1, 0, 0, 1])
+        elif k < 0.5:
+            # land on / next to the first and the last representable second
+            n = rng.choice([86400 - a, (MAXORD + 1) * 86400 - 1 - a]) + rng.choice([-86400, -2, -1, 0, 0, 1, 2, 86400])
+        elif k < 0.6:
+            n = rng.choice([1, -1]) * rng.choice([10 ** 12, 10 ** 15, 86400 * 999999999, 86400 * 999999999 + 86399,
+                                                  86400 * 10 ** 9, 86400 * 999999999 - 1])
+        elif k < 0.7:
+            # to the same second of another special day
+            n = (_cal_ordinal(rng) - a // 86400) * 86400 + rng.choice([0, 0, -(a % 86400), 86399 - a % 86400])
+        else:
+            n = rng.randint(-10 ** rng.randint(1, 11), 10 ** rng.randint(1, 11))
+        return {'fn': 'cal', 'op': 'add', 'inst': inst, 'n': n}
+    if r < 0.80:
+        off = rng.choice([0, 1, -1, 60, -60, 330, 345, -210, 840, -720, 1439, -1439, rng.randint(-1439, 1439)])
+        if rng.random() < 0.2:
+            inst = rng.choice([['o', 1, rng.choice([0, 3600, 86399]), 0], ['o', MAXORD, rng.choice([0, 82800, 86399]), 5]])
+        return {'fn': 'cal', 'op': 'utc', 'inst': inst, 'off': off}
+    if r < 0.92:
+        k = rng.choice([20, 20, 20, 0, 1, 4, 100, 400, rng.randint(0, 9999)])
+        if rng.random() < 0.4:
+            y = rng.choice([1880, 1980, 2080, 2000, 2024, 2380, 9976, 9979, 9980, 4 * rng.randint(1, 2499)])
+            inst = ['f', y, 2, 29 if _leap(y) else 28, 0, 0, 0, 0] if rng.random() < 0.7 else ['f', y, 12, 31, 23, 59, 59, 1]
+        return {'fn': 'cal', 'op': 'addyears', 'inst': inst, 'k': k}
+    return {'fn': 'cal', 'op': 'fmt', 'inst': inst}
+
+
+def _calendar_edges(rng):
+    """the edges of the calendar arithmetic: 29 February + 20 years (into a leap and into a common year), the last
+    years, sums that land on / pass 9999-12-31T23:59:59 in the wall-clock zone or only in UTC, negative durations"""
+    fast = lambda: rng.choice(FAST_ISSUERS)      # noqa: E731
+    for y in (1880, 1980, 2024, 2080, 2380):
+        yield _base(rng, fn='self', now=[y, 2, 29] + list(rng.choice(HMS)), issuer=fast(), us=rng.choice([0, 999999]))
+    for y in (9978, 9979, 9980, 9999):
+        yield _base(rng, fn='self', now=[y] + list(rng.choice([[12, 31, 23, 59, 59], [1, 1, 0, 0, 0]])), issuer=fast())
+    for now in ([9999, 12, 21, 23, 59, 59], [9999, 12, 22, 0, 0, 0], [9999, 12, 31, 23, 59, 59], [9989, 12, 22, 0, 0, 0]):
+        yield _base(rng, fn='req', now=now, issuer=fast(), us=rng.choice([0, 999999]))
+    for start, tz, expire in (([9999, 12, 31, 23, 59, 59], None, 0), ([9999, 12, 31, 23, 59, 59], None, 1),
+                              ([9999, 12, 31, 23, 59, 59], 0, 1), ([9999, 12, 31, 9, 0, 0], 14, 3599),
+                              ([9999, 12, 31, 9, 0, 0], 14, 3600), ([9999, 12, 31, 20, 0, 0], -12, 14399),
+                              ([9999, 12, 31, 20, 0, 0], -12, 14400), ([9999, 12, 31, 20, 0, 0], -3.5, 18000),
+                              ([2024, 3, 1, 0, 0, 0], None, -1), ([2024, 3, 1, 0, 0, 0], 5.75, -86401),
+                              ([2100, 3, 1, 0, 0, 0], -8, -1), ([2001, 1, 1, 0, 0, 0], None, -366 * 86400),
+                              ([1000, 1, 1, 0, 0, 0], 5, 0), ([1000, 1, 1, 0, 0, 0], -9, 10 ** 9),
+                              ([2024, 1, 1, 0, 0, 0], None, 10 ** 12), ([2024, 1, 1, 0, 0, 0], 9, 251698233599 - 9 * 3600),
+                              ([2024, 1, 1, 0, 0, 0], None, 251698233599), ([2024, 1, 1, 0, 0, 0], None, 251698233600)):
+        yield _base(rng, fn='derive', start=start, tz=tz, expire=expire, issuer=fast(), us=rng.choice([0, 1, 999999]))
+
+
 def cases(rng, tier):
+    yield from _calendar_edges(rng)
     yield from _sweep(rng, tier)
     yield from _sizes(rng, tier)
     n = 150 if tier == 'quick' else 4000
     for _ in range(n):
         yield _random_case(rng, tier)
+    for _ in range(10000 if tier == 'quick' else 200000):
+        yield _cal_case(rng)
+    # date.fromordinal of EVERY ordinal 1.._MAXORDINAL in the thorough tier (blocks of 40000 days), 6 blocks in the quick one
+    blocks = [(lo, min(40000, MAXORD + 1 - lo)) for lo in range(1, MAXORD + 1, 40000)]
+    for lo, count in (blocks if tier != 'quick' else rng.sample(blocks, 6)):
+        yield {'fn': 'cal', 'op': 'range', 'lo': lo, 'count': count}
 
 
 def shrink(case):
+    if case['fn'] == 'cal':
+        return
     if len(case['key_name']) > 2:
         yield dict(case, key_name=case['key_name'][1:])
     if case['expire'] > 1:
@@ -273,7 +409,91 @@ def _version_comp(ts):
     return T.tl(54) + T.tl(len(v)) + v
 
 
+def _inst(dt):
+    """how an instant enters the model: (date.toordinal(), second of the day, microsecond) of the wall-clock reading"""
+    return [dt.toordinal(), dt.hour * 3600 + dt.minute * 60 + dt.second, dt.microsecond]
+
+
+def _start_dt(case):
+    """the start_time handed to derive_cert: case['start'] is the requested instant in UTC; 'tz': None = naive,
+    0 = aware UTC, other = the same instant expressed in a zone that many hours from UTC"""
+    start = _dt.datetime(*case['start'], case.get('us', 0), tzinfo=None if case.get('tz') is None else _dt.timezone.utc)
+    if case.get('tz'):
+        start = start.astimezone(_dt.timezone(_dt.timedelta(hours=case['tz'])))
+    return start
+
+
+def _issue(case):
+    """the time inputs of the call in the model's terms (no calendar fields: the model computes them)"""
+    if case['fn'] == 'derive':
+        start = _start_dt(case)
+        off = 'n' if start.tzinfo is None else str(round(start.utcoffset().total_seconds() / 60))
+        return 'derive:%d,%d,%d,%s,%d' % (*_inst(start), off, case['expire'])
+    now = _dt.datetime(*case['now'], case.get('us', 0))
+    return '%s:%d,%d,%d' % (case['fn'], *_inst(now))
+
+
+def _cal_dt(inst):
+    if inst[0] == 'o':
+        o, sec, us = inst[1:]
+        return _dt.datetime.combine(_dt.date.fromordinal(o), _dt.time(sec // 3600, sec % 3600 // 60, sec % 60, us))
+    return _dt.datetime(*inst[1:])
+
+
+def _cal_show(dt):
+    return 'ok %d,%d,%d;%d,%d,%d,%d,%d,%d' % (*_inst(dt), *_fields(dt))
+
+
+def _run_cal(case):
+    """the same question put to CPython's datetime"""
+    op = case['op']
+    try:
+        if op == 'ymd2ord':
+            return 'ok %d' % _dt.date(*case['ymd']).toordinal()
+        if op == 'ord2ymd':
+            d = _dt.date.fromordinal(case['n'])
+            return 'ok %d,%d,%d' % (d.year, d.month, d.day)
+        if op == 'range':
+            runs = []
+            for n in range(case['lo'], case['lo'] + case['count']):
+                d = _dt.date.fromordinal(n)
+                if runs and runs[-1][:2] == [d.year, d.month] and d.day == runs[-1][2] + runs[-1][3]:
+                    runs[-1][3] += 1
+                else:
+                    runs.append([d.year, d.month, d.day, 1])
+            return 'ok ' + ';'.join('%d,%d,%d,%d' % tuple(r) for r in runs)
+        t = _cal_dt(case['inst'])
+        if op == 'add':
+            return _cal_show(t + _dt.timedelta(seconds=case['n']))
+        if op == 'utc':
+            aware = t.replace(tzinfo=_dt.timezone(_dt.timedelta(minutes=case['off'])))
+            return _cal_show(aware.astimezone(_dt.timezone.utc).replace(tzinfo=None))
+        if op == 'addyears':
+            return _cal_show(t.replace(year=t.year + case['k']))
+        if op == 'fmt':
+            return 'ok ' + t.strftime('%Y%m%dT%H%M%S').encode().hex() if t.year >= 1000 else 'skip year<1000'
+        raise KeyError(op)
+    except (ValueError, OverflowError) as e:
+        return 'err ' + type(e).__name__
+
+
+def _cal_line(case):
+    op = case['op']
+    if op == 'ymd2ord':
+        return 'C16 cal ymd2ord %d,%d,%d' % tuple(case['ymd'])
+    if op == 'ord2ymd':
+        return 'C16 cal ord2ymd %d' % case['n']
+    if op == 'range':
+        return 'C16 cal range %d %d' % (case['lo'], case['count'])
+    inst = case['inst'][0] + ':' + ','.join(str(x) for x in case['inst'][1:])
+    if op == 'fmt':
+        return 'C16 cal fmt ' + inst
+    return 'C16 cal %s %s %d' % (op, inst, case[{'add': 'n', 'utc': 'off', 'addyears': 'k'}[op]])
+
+
 def run_impl(case):
+    if case['fn'] == 'cal':
+        return {'made': ['cal'], 'cal': _run_cal(case)}
     from ndn.app_support import security_v2 as sv
     from ndn import encoding as enc
     out = {}
@@ -304,26 +524,15 @@ def run_impl(case):
             if case['fn'] == 'self':
                 name, wire = sv.self_sign(key_name, pub, rec)
                 issuer = b'\x08\x04self'         # NDN certificate naming: the issuer id of a self-signed certificate
-                t0 = [1970, 1, 1, 0, 0, 0]
-                t1 = _fields(now.replace(year=now.year + 20))
             elif case['fn'] == 'req':
                 name, wire = sv.sign_req(key_name, pub, rec)
                 issuer = bytes(sv.SIGN_REQ_COMPONENT)
-                t0 = _fields(now)
-                t1 = _fields(now + _dt.timedelta(days=10))
             else:
                 kind, val = case['issuer_id']
                 iid = val if kind == 'text' else bytes.fromhex(val)
-                # case['start'] is the requested instant in UTC; 'tz': None = naive, 0 = aware UTC, other = the same
-                # instant expressed in a zone that many hours from UTC (fixed in /repo: written as UTC)
-                start = _dt.datetime(*case['start'], us, tzinfo=None if case.get('tz') is None else _dt.timezone.utc)
-                if case.get('tz'):
-                    start = start.astimezone(_dt.timezone(_dt.timedelta(hours=case['tz'])))
+                start = _start_dt(case)
                 name, wire = sv.derive_cert(key_name, iid, pub, rec, start, case['expire'])
                 issuer = _uri_comp(val) if kind == 'text' else bytes.fromhex(val)
-                t0 = case['start']
-                end = start + _dt.timedelta(seconds=case['expire'])
-                t1 = _fields(end if end.tzinfo is None else end.astimezone(_dt.timezone.utc))
             wire = bytes(wire)
             out['made'] = ['ok', wire.hex()]
             out['name'] = [bytes(c).hex() for c in name]
@@ -336,6 +545,18 @@ def run_impl(case):
             return out
     finally:
         sv.datetime, sv.timestamp = old
+    # the requested instants (UTC), worked out apart from the call: None when they are not representable (then a
+    # certificate has no business existing, which the comparison with the model reports)
+    try:
+        if case['fn'] == 'self':
+            t0, t1 = [1970, 1, 1, 0, 0, 0], _fields(now.replace(year=now.year + 20))
+        elif case['fn'] == 'req':
+            t0, t1 = _fields(now), _fields(now + _dt.timedelta(days=10))
+        else:
+            t0 = case['start']
+            t1 = _fields(_dt.datetime(*case['start'], us) + _dt.timedelta(seconds=case['expire']))
+    except (ValueError, OverflowError):
+        t0 = t1 = None
     out.update({'issuer': issuer.hex(), 't0': t0, 't1': t1, 'pub': pub.hex(),
                 'version': _version_comp(case['ts']).hex(),
                 'reserved': rec.reserved, 'sig': rec.sig.hex() if rec.sig is not None else None,
@@ -379,20 +600,29 @@ def run_impl(case):
 
 
 def model_line(case, impl):
+    if case['fn'] == 'cal':
+        return _cal_line(case)
+    if impl['made'][0] == 'calendar':
+        # the implementation raised in its calendar arithmetic: the model must raise the same class from the same inputs
+        return 'C16 times ' + _issue(case)
     if impl['made'][0] != 'ok' or impl.get('sig') is None:
         return None
     kn = ','.join(T.hx(bytes.fromhex(c)) for c in case['key_name']) or '.'
-    t0 = ','.join(str(x) for x in impl['t0'])
-    t1 = ','.join(str(x) for x in impl['t1'])
-    if not (1000 <= impl['t0'][0] <= 9999 and 1000 <= impl['t1'][0] <= 9999):
-        return None
     return (f"C16 cert {kn} {impl['issuer']} {impl['version']} {T.hx(bytes.fromhex(impl['pub']))} {impl['signer_info']} "
-            f"{t0} {t1} {impl['reserved']}:{T.hx(bytes.fromhex(impl['sig']))}")
+            f"{_issue(case)} {impl['reserved']}:{T.hx(bytes.fromhex(impl['sig']))}")
 
 
 def model_obs(answer, case, impl):
+    if case['fn'] == 'cal':
+        return {'cal': answer}
+    if answer.startswith('skip'):
+        # a validity period reaching below the year 1000: outside the domain of the text model (see TRUSTED)
+        return impl_obs(impl)
     if answer.startswith('err'):
-        return {'made': ['err', answer.split()[1]]}
+        cls = answer.split()[1]
+        return {'made': ['calendar' if cls in ('ValueError', 'OverflowError') else 'err', cls]}
+    if impl['made'][0] == 'calendar':
+        return {'made': ['ok-validity'] + answer.split()[1:]}
     left, right = answer.split(' | ')
     d = dict(t.split('=', 1) for t in left.split()[1:])
     r = right.split()
@@ -401,11 +631,15 @@ def model_obs(answer, case, impl):
 
 
 def impl_obs(impl):
+    if impl['made'][0] == 'cal':
+        return {'cal': impl['cal']}
+    if impl['made'][0] == 'calendar':
+        return {'made': impl['made']}
     return {'made': impl['made'], 'covered': impl['covered'], 'name': impl['name'], 'parsed': impl['parsed']}
 
 
 def oracle(case, impl):
-    if impl['made'][0] == 'calendar':
+    if impl['made'][0] in ('calendar', 'cal'):
         return None
     if impl['made'][0] == 'err':
         s = case['issuer']
@@ -424,7 +658,7 @@ def oracle(case, impl):
         return 'certificate content is not exactly the given public key'
     if c['content_type'] != 2:
         return 'content type is not KEY'
-    if c['not_before'] != _fmt(impl['t0']) or c['not_after'] != _fmt(impl['t1']):
+    if impl['t0'] is not None and (c['not_before'] != _fmt(impl['t0']) or c['not_after'] != _fmt(impl['t1'])):
         return f"validity period {c['not_before']}..{c['not_after']} does not encode the requested instants {_fmt(impl['t0'])}..{_fmt(impl['t1'])}"
     k = case['issuer'][0]
     want_kl = {'hmac': '/k/hmac', 'rsa2048': '/k/rsa', 'ed25519': '/k/ed'}.get(k, '/k/' + k if k.startswith('ec') else None)
@@ -442,10 +676,14 @@ def oracle(case, impl):
 
 
 def nontrivial(case, impl):
+    if impl['made'][0] == 'cal':
+        return impl['cal'].startswith('ok')
     return impl['made'][0] == 'ok' and impl.get('verify') in (True, None)
 
 
 def tags(case, impl):
+    if case['fn'] == 'cal':
+        return ['cal:' + case['op'] + ':' + impl['cal'].split()[0], 'cal-inst:' + case['inst'][0] if 'inst' in case else 'cal-inst:-']
     t = ['fn:' + case['fn'], 'issuer:' + case['issuer'][0], 'subject:' + case['subject'], 'made:' + impl['made'][0]]
     if impl['made'][0] == 'ok':
         n = len(impl['made'][1]) // 2
@@ -457,7 +695,7 @@ def tags(case, impl):
             t.append('shrunk')
             if n < 253 <= n + impl['reserved'] - len(impl['sig']) // 2:
                 t.append('shrunk-across-253')
-        for key in ('t0', 't1'):
+        for key in ('t0', 't1') if impl['t0'] is not None else ():
             if impl[key][1:3] in ([12, 29], [12, 30], [12, 31], [1, 1], [1, 2], [1, 3]):
                 t.append(key + ':29dec-3jan')
             elif impl[key][2] >= 29:
